@@ -257,7 +257,7 @@ def run(ctx):
     # outside the lock (it only reads .vo files). Nothing is admitted.
     old_env = os.environ.get("VERIF_NO_COQCHK")
     os.environ["VERIF_NO_COQCHK"] = "1"
-    proofs_ok, info = ctx.check_proofs(make_targets=["Place/Proofs.vo", "Place/ProofsV2.vo", "Place/ProofsV2Fresh.vo", "Place/ProofsOrder.vo", "Place/ProofsConsumers.vo", "Place/ProofsKeep.vo", "Properties/C17.vo"],
+    proofs_ok, info = ctx.check_proofs(make_targets=["Place/Proofs.vo", "Place/ProofsV2.vo", "Place/ProofsV2Fresh.vo", "Place/ProofsOrder.vo", "Place/ProofsConsumers.vo", "Place/ProofsKeep.vo", "Place/ProofsFreshGen.vo", "Properties/C17.vo"],
                                        gate_paths=["Place", "Part/Model", "Common", "Properties/C17"])
     if old_env is None:
         del os.environ["VERIF_NO_COQCHK"]
